@@ -462,7 +462,18 @@ func (o *Obligation) emit(p *Prelude, noCOI bool, mode string) string {
 			fmt.Fprintf(&sb, "(declare-const %s %s)\n", smtName(sk.Name), sk.S)
 		}
 		if mode == "ground" {
-			for _, f := range groundFacts(incl, goal, sks) {
+			gf, gsk := groundFacts(incl, goal, sks)
+			declared := map[*Term]bool{}
+			for _, sk := range sks {
+				declared[sk] = true
+			}
+			for _, sk := range gsk {
+				if !declared[sk] {
+					declared[sk] = true
+					fmt.Fprintf(&sb, "(declare-const %s %s)\n", smtName(sk.Name), sk.S)
+				}
+			}
+			for _, f := range gf {
 				sb.WriteString("(assert ")
 				sb.WriteString(f.SMT())
 				sb.WriteString(")\n")
